@@ -24,7 +24,7 @@ def curated(rng):
     gs.append(P.mk_grammar("e1", [("P0", seq(grp("star", neg(lit("a"))), neg(grp("once", alt(lit("b"), lit("(")))), cap("A", "string", ref("Ident")), grp("opt", neg(grp("plus", lit("b"))))), [F("A", "string")])]))
     gs.append(P.mk_grammar("e2", [("P0", seq(look(False, seq(lit("a"), lit("b"))), look(True, alt(lit("a"), ref("Int"))), cap("A", "strings", grp("once", grp("plus", alt(ref("Ident"), ref("Int")))))), [F("A", "strings")])]))
     # literals needing escapes, typed literals
-    gs.append(P.mk_grammar("e3", [("P0", seq(lit('"'), lit("\\"), cap("A", "string", grp("once", alt(lit("a", "Ident"), lit("\\n"), lit("é")))), lit("|"), lit("'")), [F("A", "string")])]))
+    gs.append(P.mk_grammar("e3", [("P0", seq(lit('"'), lit("\\"), cap("A", "string", grp("once", alt(lit("a", "Ident"), lit("\n"), lit("é"), lit("C:\\")))), lit("|"), lit("'")), [F("A", "string")])]))
     # recursion, unions, several references to the same production
     gs.append(P.mk_grammar("e4", [("P0", seq(cap("A", "node", {"op": "prod", "p": "P1"}), grp("star", seq(lit("("), cap("B", "nodes", {"op": "prod", "p": "P1"}), lit(")")))), [F("A", "node", "P1"), F("B", "nodes", "P1")]),
                                   ("P1", alt(seq(lit("("), cap("K", "union", {"op": "union", "u": "U0"}), lit(")")), cap("V", "string", ref("Ident"))), [F("K", "union", "U0"), F("V", "string")]),
@@ -46,8 +46,12 @@ def run(pid, tier, args):
         gs = [codegen.rename(g, "G%s" % g["id"].upper()) for g in dyn]
         for g in gs:
             g.pop("inputs", None)
+            g["structure"] = True
+        # hand-written Go types (anonymous / embedded structs): structure-independent clauses only
+        for sid in ("static-embedded", "static-anon-two", "static-anon-rec"):
+            gs.append({"id": sid, "structure": False, "root": "", "prods": [], "unions": {}})
         src = os.path.join(wd, "harness-src")
-        codegen.emit(gs, os.path.join(src, "gengram", "gen.go"))
+        codegen.emit([g for g in gs if g["structure"]], os.path.join(src, "gengram", "gen.go"))
         vhg = os.path.join(wd, "vh-gengram")
         p = subprocess.run(["go", "build", "-tags", "verif gengram", "-o", vhg, "./cmd/vh"], cwd=src, env=vlib.GOENV, stdout=subprocess.PIPE, stderr=subprocess.STDOUT)
         if p.returncode != 0:
@@ -70,6 +74,7 @@ def run(pid, tier, args):
                 raise Infra("no verdict for %s" % g["id"])
             if vd.startswith("builderr"):
                 nbuild += 1
+                log("note: %s does not build: %s" % (g["id"], vd[:150]))
                 continue
             key = vd.split(":")[0]
             counts[key] = counts.get(key, 0) + 1
